@@ -136,7 +136,9 @@ VARIABLE c
 InitQuick == c \in CountCases({"v664", "v6ex"}, {-1, 0, 64, 65}) \cup CountCases({"v5", "v7"}, {0, 16, 17}) \cup OffsetCases \cup PnoCases
                    \cup MiscCases \cup CutCases \cup BadCases \cup RespCases
 InitThorough == c \in CountCasesAll \cup OffsetCases \cup PnoCases \cup MiscCases \cup CutCases \cup BadCases \cup RespCases
+InitSelf == c \in OffsetCases \cup PnoCases
 Next == UNCHANGED c
+SpecSelf == InitSelf /\ [][Next]_c
 SpecQuick == InitQuick /\ [][Next]_c
 SpecThorough == InitThorough /\ [][Next]_c
 
